@@ -1033,7 +1033,7 @@ func (e *boundsEngine) analyse(g *ssa.Function, s *fnSummary) {
 			for k, f := range a.defsAt(ob.ins) {
 				all[k] = f
 			}
-			if proveGE(ob.e, all) || a.proveBySplit(ob.e, b, ob.ins, all, 0) {
+			if proveGE(ob.e, all) || a.proveBySplit(ob.e, b, ob.ins, all, 0) || a.proveByMinSplit(ob.e, all, 0) {
 				s.proven++
 				continue
 			}
@@ -1061,7 +1061,7 @@ func (e *boundsEngine) analyse(g *ssa.Function, s *fnSummary) {
 					for k, f := range a.defsAt(ob.ins) {
 						all[k] = f
 					}
-					if proveGE(ob.e, all) || a.proveBySplit(ob.e, b, ob.ins, all, 0) {
+					if proveGE(ob.e, all) || a.proveBySplit(ob.e, b, ob.ins, all, 0) || a.proveByMinSplit(ob.e, all, 0) {
 						s.extraOK++
 					} else {
 						s.extraBad = append(s.extraBad, ob)
@@ -1845,4 +1845,57 @@ func (a *boundsAn) refine() {
 			}
 		}
 	}
+}
+
+
+// proveByMinSplit: case split on a min / max builtin mentioned in e. min(a1..an) equals one of its
+// arguments, and that argument is then <= all the others (>= for max); e must hold in every case.
+func (a *boundsAn) proveByMinSplit(e lin, facts factSet, depth int) bool {
+	if depth > 1 {
+		return false
+	}
+	for sy := range e.t {
+		v, ok := sy.v.(ssa.Value)
+		if !ok || sy.kind != 'v' {
+			continue
+		}
+		call, ok := v.(*ssa.Call)
+		if !ok {
+			continue
+		}
+		b, ok := call.Call.Value.(*ssa.Builtin)
+		if !ok || (b.Name() != "min" && b.Name() != "max") || len(call.Call.Args) < 2 {
+			continue
+		}
+		s := linSym(sy)
+		coef := e.t[sy]
+		all := true
+		for k, arg := range call.Call.Args {
+			ak := a.formOf(arg)
+			if _, self := ak.t[sy]; self {
+				all = false
+				break
+			}
+			F := facts.clone()
+			for j, other := range call.Call.Args {
+				if j == k {
+					continue
+				}
+				d := a.formOf(other).sub(ak)
+				if b.Name() == "max" {
+					d = d.scale(-1)
+				}
+				F.addGE(d)
+			}
+			e2 := e.sub(s.scale(coef)).add(ak.scale(coef))
+			if !(proveGE(e2, F) || a.proveByMinSplit(e2, F, depth+1)) {
+				all = false
+				break
+			}
+		}
+		if all {
+			return true
+		}
+	}
+	return false
 }
